@@ -30,6 +30,7 @@ import (
 	"github.com/nspcc-dev/neofs-sdk-go/eacl"
 	"github.com/nspcc-dev/neofs-sdk-go/netmap"
 	"github.com/nspcc-dev/neofs-sdk-go/reputation"
+	"github.com/nspcc-dev/neofs-sdk-go/session"
 	"github.com/nspcc-dev/neofs-sdk-go/user"
 	"time"
 )
@@ -298,7 +299,7 @@ func (w *World) InstallFixture() *Fixture {
 	}
 	f.Cnr = Container(f.Owner.ID, "stored", "REP 2", acl.PublicRWExtended)
 	f.CnrID = CID(f.Cnr)
-	f.NewCnr = Container(f.Owner.ID, "new", "REP 1", acl.PublicRWExtended)
+	f.NewCnr = Container(f.Owner.ID, "new", "REP 1", acl.PublicRWExtended, "Name", "fresh")
 	w.Lock(func(t *Tables) {
 		nm := new(netmap.NetMap)
 		nm.SetNodes(f.Nodes)
@@ -363,7 +364,11 @@ func (w *World) CanonicalNotaryScript(f *Fixture, contract util.Uint160, typ str
 		return Script(CallSpec{contract, typ, []any{cntcli.VerifContainerToStackItem(f.NewCnr), o.SignRFC6979(cb), o.PubBytes(), []byte{}}}), true
 	case "delete":
 		// the legacy method has no key argument: only a session token can authorise it (see DeliveryNote)
-		return Script(CallSpec{contract, typ, []any{f.CnrID[:], o.SignRFC6979(f.CnrID[:]), []byte{}}}), true
+		sess := NewUser("session")
+		var ep uint64
+		w.Lock(func(t *Tables) { ep = t.Epoch })
+		tok := SessionV1(o, sess, session.VerbContainerDelete, &f.CnrID, ep, ep, ep+10, false)
+		return Script(CallSpec{contract, typ, []any{f.CnrID[:], sess.SignRFC6979(f.CnrID[:]), tok.Marshal()}}), true
 	case "remove":
 		return Script(CallSpec{contract, typ, []any{f.CnrID[:], o.SignRFC6979(f.CnrID[:]), o.PubBytes(), []byte{}}}), true
 	case "setEACL", "putEACL":
